@@ -84,12 +84,12 @@ CHECKS = {
          "deterministic simulation: seeded statement-level interleaving of real sessions vs. row-level snapshot model", "DESIGN.md §6.3 C22", "dsim-sql"),
  "C23": ("exploration",
          "Same world as C22 with more overlapping commits: each COMMIT outcome is compared with the cell-wise conflict rule, a success must leave merge(start, branch, mine), a refusal must leave nothing of the session's changes, and the table must equal the fold of all acknowledged transactions in commit order at the end and after every clean restart (no committed write lost).",
-         "A refusal the model does not predict is counted, not reported (the property forbids lost writes, not refusals). S0 interleaving.",
-         "deterministic simulation: seeded statement-level interleaving vs. cell-wise three-way merge model", "DESIGN.md §6.3 C23", "dsim-sql"),
+         "A refusal the model does not predict is counted, not reported (the property forbids lost writes, not refusals). S0 interleaving. A third of the runs end with a crash phase: the server dies at a structural file-system event of one more COMMIT or right after it (three persistence variants); a fresh engine on each crash image must show the table without or with the whole transaction - with it if the COMMIT had been acknowledged before the crash - and stay usable.",
+         "deterministic simulation: seeded statement-level interleaving vs. cell-wise three-way merge model + crash images of a COMMIT re-opened by a fresh engine", "DESIGN.md §6.3 C23", "dsim-sql"),
  "C25": ("exploration",
          "Same world with index-heavy statements, UPDATE through an index and ADD/DROP INDEX: after every write statement (inside the writer's own transaction) and at the end through a fresh session, every lookup through index ia and a covering range scan over index ibc are compared entry for entry with the table scan of the same session - in particular after transaction-commit merges rebuilt the secondary indexes and after clean restarts.",
-         "Index contents are observed through index-driven queries of the engine (lookup and covering range scan), not by reading the index maps directly.",
-         "deterministic simulation: seeded interleaving + index-vs-table direct evaluator after every write", "DESIGN.md §6.3 C25", "dsim-sql"),
+         "Index contents are observed through index-driven queries of the engine (lookup and covering range scan), not by reading the index maps directly. A third of the runs end with the crash phase of C23; the index-vs-table comparison is repeated on every recovered crash image.",
+         "deterministic simulation: seeded interleaving + index-vs-table direct evaluator after every write and after crash recovery", "DESIGN.md §6.3 C25", "dsim-sql"),
  "C24": ("exploration",
          "2-4 sessions on main plus one on branch b1 behind the production SQL engine; parent/child tables with primary key, UNIQUE, FOREIGN KEY, NOT NULL and a two-column CHECK; seeded statements over tiny domains that are legal in each session's snapshot and illegal in combination, COMMIT/ROLLBACK, dolt_commit, dolt_merge under autocommit, clean restarts; after every acknowledged commit of any kind (SQL COMMIT, autocommit statement, dolt_commit incl. AS OF the new commit, merge, on both branches, after restart) an independent evaluator re-checks all constraints over full scans of the committed tables; a final forced merge (@@dolt_force_transaction_commit) must list every violating row in dolt_constraint_violations_child.",
          "Constraint checks are never disabled by the workload; schema changes are not generated. Whether a refusal was necessary is not judged (the property forbids committed violations, not refusals).",
@@ -101,7 +101,7 @@ CHECKS = {
  "C33": ("exploration",
          "Two branches edited by their own sessions behind the production SQL engine: seeded row DML, ADD/DROP COLUMN, RENAME TABLE, DROP/CREATE TABLE, dolt_commit (recorded in the reference model with the table's name, schema and rows), tags and branches created at randomly chosen old commits, uncommitted changes, dolt_gc and clean restarts; every recorded commit is later read AS OF its hash / a tag / a branch, through the revision database name, and through dolt_history_<table> filtered to the commit, and must return exactly the recorded rows, or be refused where the table was absent.",
          "History-table reads are limited to commits of the reader's branch in which the table had its present name. AS OF timestamps are not generated.",
-         "deterministic simulation: seeded histories with GC / restart events, recorded-state oracle over three historical read paths", "DESIGN.md §6.3 C33", "dsim-sql"),
+         "deterministic simulation: seeded histories with GC / restart / process-death events (crash images of a dolt_commit re-opened by a fresh engine), recorded-state oracle over three historical read paths", "DESIGN.md §6.3 C33", "dsim-sql"),
  "C47": ("exploration",
          "One server directory with the root database and up to two nested databases behind the production SQL engine; seeded CREATE DATABASE, filling (tables, rows, commits, branches, tags, checkouts, staged and unstaged changes), DROP DATABASE, re-creation under the same name, CALL dolt_undrop (also with another letter case), CALL dolt_purge_dropped_databases and clean restarts; a logical fingerprint taken through SQL just before each DROP (branches, tags, logs, status and every row of every table of every branch) must be what dolt_undrop brings back; an undrop onto a live name must fail and leave the live database unchanged; after a purge nothing may come back.",
          "Only the most recently dropped database of a name is expected back. No crash or I/O fault is injected into the directory moves.",
@@ -111,8 +111,8 @@ CHECKS = {
          "Writers run whole statements between scheduling points (a statement blocked by the collection lets the collector go on). Interactive rebase / revert / cherry-pick state and statistics refs are not part of the generated histories. The yield points sit in a wrapper around the ValueStore's chunk store installed through the overlay's white-box accessor; no dolt code is changed.",
          "deterministic simulation: seeded S1 scheduler over GC phases x writer statements, fingerprint + acknowledged-write + reference-walk oracles, clean restart", "DESIGN.md §6.3 C08", "dsim-sql"),
  "C35": ("exploration",
-         "Two databases of one production SQL engine (the second a clone of the first) exchange commits through one remote: a file remote (file-manifest store) or an HTTP remote (the real remotesrv gRPC service + HTTP file handler + sealer behind the simulated network, the real remotestorage client). Part 1, seeded step sequences: commits on several branches of both sides (divergent histories, same-key edits, destinations that already hold part of the data), dolt_push (also --force), dolt_fetch, dolt_pull, dolt_clone, engine and remote-server restarts, table-file size drawn per run so that a transfer is one or many files; transfers are disturbed by EIO at a chosen file operation on the destination, a disk that stays dead, lost / duplicated / truncated network exchanges, and process death at structural file-operation positions inside the transfer (crash images of the destination under three persistence variants, re-opened by the real code). After every step a walk from the root of every store must read every chunk with bytes that hash to its address; the remote's branches must be exactly where the acknowledged pushes put them; a non-fast-forward push without --force must be refused; fetched / cloned tracking refs equal the remote's heads; a pulled branch contains the remote's head and its own old head. Part 2, seeded S1 schedules: 2-3 sessions commit and push main without --force concurrently, parked before the remote store's Root / Rebase / Commit / AddTableFilesToManifest (file remote) or before every unary RPC and upload (HTTP remote): every acknowledged push must be contained in the remote's final head.",
-         "Sampling of histories, fault placements and schedules. The puller's and the chunk fetcher's helper goroutines are not scheduled by the simulator: which file operation a disk fault hits and which crash images are taken can differ between executions of one seed, so a violating run may not replay; the check then tries the other violating runs and reports only one that reproduces (DESIGN §11). Shallow clones, tag pushes, remote branch deletion, git-backed and cloud remotes are not covered; the gRPC/HTTP transports are replaced by in-process delivery (protobuf codec kept).",
+         "Two databases of one production SQL engine (the second a clone of the first) exchange commits through one remote: a file remote (file-manifest store) or an HTTP remote (the real remotesrv gRPC service + HTTP file handler + sealer behind the simulated network, the real remotestorage client). Part 1, seeded step sequences: commits on several branches of both sides (divergent histories, same-key edits, destinations that already hold part of the data), dolt_push (also --force, of tags, deleting a remote branch), dolt_fetch, dolt_pull, dolt_clone, dolt_backup sync / restore, engine and remote-server restarts, table-file size drawn per run so that a transfer is one or many files; transfers are disturbed by EIO at a chosen file operation on the destination, a disk that stays dead, lost / duplicated / truncated network exchanges, and process death at structural file-operation positions inside the transfer (crash images of the destination under three persistence variants, re-opened by the real code). After every step a walk from the root of every store must read every chunk with bytes that hash to its address; the remote's branches must be exactly where the acknowledged pushes put them; a non-fast-forward push without --force must be refused; fetched / cloned tracking refs equal the remote's heads; a pulled branch contains the remote's head and its own old head. Part 2, seeded S1 schedules: 2-3 sessions commit and push main without --force concurrently, parked before the remote store's Root / Rebase / Commit / AddTableFilesToManifest (file remote) or before every unary RPC and upload (HTTP remote): every acknowledged push must be contained in the remote's final head.",
+         "Sampling of histories, fault placements and schedules. The puller's and the chunk fetcher's helper goroutines are not scheduled by the simulator: which file operation a disk fault hits and which crash images are taken can differ between executions of one seed, so a violating run may not replay; the check then tries the other violating runs and reports only one that reproduces (DESIGN §11). Shallow clones, fetch --prune, git-backed and cloud remotes are not covered; the gRPC/HTTP transports are replaced by in-process delivery (protobuf codec kept).",
          "deterministic simulation: seeded transfer histories with disk / network / crash faults + seeded S1 scheduler over concurrent pushers, reference-walk and ref-model oracles", "DESIGN.md §6.2 C35", "dsim-sql"),
  "C45": ("exploration",
          "Three seeded modes behind the production SQL engine. (a) Cluster data plane: the real cluster commit hook (replicate loop, retry back-off, ticker, heartbeat, wait functions, circuit breaker) is installed on the primary's database as the controller installs it; its destination is a standby store (file-manifest or journaling) served by the real remotesrv gRPC service and HTTP file handler behind the simulated network, every exchange passing a gate the run controls; steps interleave primary writes (working-set DML, commits, branches; replication acknowledgement switched on and off) with 'n exchanges may pass', partitions, lossy delivery (lost before/after delivery, duplicated), standby-server restarts and simulated time. At every quiescent point the standby's store, re-opened from disk, shows a root the primary's store has committed (recorded at the store's Commit), never an older one than before, closed under references; a write acknowledged without a replication warning is on the standby; after faults stop the hook is caught up and the standby is at the primary's root within 40 simulated seconds. (b) Push-on-write + read replica over a file or HTTP remote with remote disk faults, network faults and remote restarts: a head-moving statement that returned with nothing reported has its head on the remote; the replica never shows a head the remote has not had; without faults a new replica transaction shows exactly the remote's heads. (c) Standby flag of the database provider toggled: 22 kinds of write through fresh sessions must change nothing while it is a standby.",
